@@ -223,8 +223,8 @@ func c07History(r *ev.Run, s *sutc.SUT, rnd *rand.Rand, fault string, rep int) {
 		atomic.StoreInt32(&victim.Silent, 1)
 		go func() {
 			time.Sleep(time.Duration(20+rnd.Intn(100)) * time.Millisecond)
-			atomic.StoreInt32(&victim.Silent, 0)
 			victim.KillConns(false)
+			atomic.StoreInt32(&victim.Silent, 0)
 		}()
 		stream(2, "during", false)
 		e.note("node went silent, then closed its connections")
